@@ -102,6 +102,8 @@ DOMNodeImpl::DOMNodeImpl(DOMNode* containingNode, const DOMNodeImpl &other)
     // Need to break the association w/ original parent
     this->fOwnerNode = other.getOwnerDocument();
     this->isOwned(false);
+    // ... and with its position among the original's siblings
+    this->isFirstChild(false);
 }
 
 
